@@ -36,6 +36,18 @@ ASSUMPTIONS = [
     "leaky clamp outside the interval: <= 4 ulp of (|bound| + slope*|x - bound|)",
     "Whalley-Wilmott: 1e-9 relative (float64) on delta and width; prev hedge within the band is returned bit-identical",
 ]
+ANCHORS = ['pfhedge.nn.functional:leaky_clamp',
+           'pfhedge.nn.functional:clamp',
+           'pfhedge.nn.modules.clamp:LeakyClamp.forward',
+           'pfhedge.nn.modules.clamp:Clamp.forward',
+           'pfhedge.nn.modules.ww:WhalleyWilmott.forward',
+           'pfhedge.nn.modules.ww:WhalleyWilmott.width',
+           'pfhedge.nn.functional:ww_width',
+           'pfhedge.nn.functional:svi_variance',
+           'pfhedge.nn.functional:bilerp',
+           'pfhedge.nn.functional:box_muller',
+           'pfhedge.nn.functional:realized_volatility',
+           'pfhedge.nn.modules.svi:SVIVariance.forward']
 DECIDING = ["clamp.piecewise", "leaky_clamp.piecewise", "Clamp.module", "LeakyClamp.module", "ww.band", "ww.zero_cost_is_delta",
             "svi.formula", "bilerp.formula", "box_muller.formula", "realized_volatility.sqrt"]
 REQUIRED_BRANCHES = ["clamp.inverted.mean", "clamp.inverted.max", "leaky.inverted.max", "ww.inside_band", "ww.outside_band",
